@@ -336,7 +336,7 @@ std::string do_req(int addr, const std::string& mode, const std::string& head_sp
     return out + " | " + effects();
 }
 
-std::string fmt_response(const std::optional<daemon::ControlResponse>& resp, const std::string& sel) {
+std::string fmt_response(const std::optional<daemon::ControlResponse>& resp, const std::string& sel, bool sort_entries) {
     if (!resp) return "no-response";
     std::set<std::string> wanted;
     if (sel != "*") for (const auto& k : verif::split(sel, ',')) wanted.insert(k);
@@ -344,7 +344,7 @@ std::string fmt_response(const std::optional<daemon::ControlResponse>& resp, con
     for (const auto& [k, v] : resp->fields) {
         if (sel != "*" && !wanted.count(k)) continue;
         std::string value = v;
-        if (k == "ENTRIES") {  // order of the chunk store's hash map: sort the lines
+        if (sort_entries && k == "ENTRIES") {  // order of the chunk store's hash map: sort the lines
             std::vector<std::string> lines;
             bool trailing = !value.empty() && value.back() == '\n';
             for (const auto& l : verif::split(trailing ? value.substr(0, value.size() - 1) : value, '\n')) lines.push_back(l);
@@ -394,7 +394,7 @@ std::string do_cli(const std::vector<std::string>& t) {
         ++accepted_stores;
         manifests["s" + std::to_string(accepted_stores)] = resp->fields.at("MANIFEST");
     }
-    return fmt_response(resp, t.at(3));
+    return fmt_response(resp, t.at(3), true);
 }
 
 std::string do_list(const std::string& tok) {
@@ -455,7 +455,7 @@ std::string do_rt(bool success, const std::string& fields_spec, const std::strin
     const auto resp = client.send("PING");
     responder.join();
     ::close(ls);
-    return fmt_response(resp, "*");
+    return fmt_response(resp, "*", false);
 }
 
 }  // namespace
